@@ -363,7 +363,7 @@ class ClassSpec:
         return [(iid, eval_clause(I, lam, {"self": obj})) for iid, lam in self.invariants]
 
 
-def eval_clause(I, lam, bindings, old_view=None, native_old=None):
+def eval_clause(I, lam, bindings, old_view=None, native_old=None, pre_state=False):
     """Evaluate a contract lambda (by its source AST) in formula mode; returns z3 Bool / bool."""
     from .interp import Env
 
@@ -381,6 +381,9 @@ def eval_clause(I, lam, bindings, old_view=None, native_old=None):
         for cname, cell in zip(lam.__code__.co_freevars, lam.__closure__):
             env.vars.setdefault(cname, cell.cell_contents)
     prev = (I.fmode, I.old_view, I.native_old)
+    prev_in_old = I.in_old
+    if pre_state and old_view is not None:
+        I.in_old = True  # the whole clause speaks about the state at entry (`raises ... when`)
     I.fmode = True
     if old_view is not None:
         I.old_view = old_view
@@ -397,6 +400,7 @@ def eval_clause(I, lam, bindings, old_view=None, native_old=None):
         return I.formula(v)
     finally:
         I.fmode, I.old_view, I.native_old = prev
+        I.in_old = prev_in_old
 
 
 def _clause_globals(lam):
@@ -445,6 +449,16 @@ class Contract:
         self.cancellable = True
         self.await_asserts = []  # (id, lambda) checked at every suspension point
 
+    def witness(self, loop_ordinal, cid, lam):
+        """Native counterpart of a loop at_entry clause: a predicate over the effects of a whole native run
+        (fx, arguments) that is False exactly when the clause is violated on that run."""
+        if "native_witness" not in self.__dict__:
+            self.native_witness = {}
+        self.native_witness[(loop_ordinal, cid)] = lam
+        return self
+
+    native_witness = {}
+
     def observe(self, lam):
         """lam(self, ...) -> dict of values recorded in fx as ("observe", where, dict) at every
         resume from a suspension and just before every call of a contracted callee."""
@@ -454,6 +468,8 @@ class Contract:
     observe_ = None
     returns_fn = None  # callable(I, bindings) -> result value at call sites (shape from live tables)
     pre_call = None  # callable(I, bindings): may raise what the callee raises before doing anything
+    native_default = None  # callable(self, args, kwargs) -> what the stubbed callee answers in a replay beyond the script
+    post_call = None  # callable(I, bindings): builds the part of the proved post-state that is an object graph
 
     def at_effect(self, effect_name, cid, lam):
         """lam(self, args..., fx, eargs, ekwargs) must hold at the moment the named external effect is emitted."""
@@ -527,7 +543,18 @@ class Contract:
 
 
 class LoopSpec:
-    def __init__(self, invariant=None, modifies=None, variant=None, fold=None, ghost=None, invariants=None):
+    def __init__(self, invariant=None, modifies=None, variant=None, fold=None, ghost=None, invariants=None,
+                 each=None, at_entry=None, iteration_raises=(), generic=None):
+        # generic: a Ty -- the body is verified once for an arbitrary element of that type (a superset of
+        # the container's elements) instead of once per element
+        self.generic = generic
+        # per-iteration mode (loops over a concrete-spine container whose iterations branch on symbolic
+        # data): `each` = [(id, lambda <loop vars>, fx: ...)] must hold for the effects of every single
+        # iteration, verified from an arbitrary state satisfying the invariants; `at_entry` = assertions
+        # about the state when the loop is reached
+        self.each = each or []
+        self.at_entry = at_entry or []
+        self.iteration_raises = tuple(iteration_raises)
         self.invariants = invariants or ([("inv", invariant)] if invariant is not None else [])
         self.modifies = modifies
         self.variant = variant
